@@ -171,3 +171,55 @@ func ZZC14Show(shape, tokLayout string) {
 	_ = out
 	zzvrt.Reach("c14-show-end")
 }
+
+// ZZC14ParseText: the real parser (native, ANTLR is outside the encoding) on a
+// concrete text, then the hand-written error rendering executed in the VM.
+// expectValid: "1" = the text is a syntactically valid script, "0" = it is not, "" = unknown.
+func ZZC14ParseText(text, expectValid string) {
+	res := Parse(text)
+	lines := splitLines(text)
+	for _, e := range res.Errors {
+		s := e.Range.Start
+		ok := s.Line >= 0 && s.Line < len(lines) && s.Character >= 0
+		if ok {
+			ok = s.Character <= runeLen(lines[s.Line])
+		}
+		zzvrt.Assert(ok, "C14:error-starts-inside-the-text-or-at-its-end")
+	}
+	if expectValid == "1" {
+		zzvrt.Assert(len(res.Errors) == 0, "C14:valid-script-accepted")
+	}
+	if expectValid == "0" {
+		zzvrt.Assert(len(res.Errors) > 0, "C14:invalid-input-reported")
+	}
+	if len(res.Errors) > 0 {
+		out := ParseErrorsToString(res.Errors, text)
+		zzvrt.Assert(len(out) > 0, "C14:errors-rendered")
+	}
+	zzvrt.Note("errors=" + zzItoa(len(res.Errors)))
+	zzvrt.Reach("c14-parse-end")
+}
+
+func splitLines(s string) []string {
+	var out []string
+	cur := ""
+	for i := 0; i < len(s); i++ {
+		if s[i] == '\n' {
+			out = append(out, cur)
+			cur = ""
+			continue
+		}
+		cur += string(s[i])
+	}
+	return append(out, cur)
+}
+
+func runeLen(s string) int {
+	n := 0
+	for i := 0; i < len(s); i++ {
+		if s[i]&0xC0 != 0x80 {
+			n++
+		}
+	}
+	return n
+}
